@@ -1,0 +1,41 @@
+//go:build verif
+
+package sen
+
+// VerifTables returns the byte-class tables of the package's state machines by
+// name. It is compiled only with the verif build tag and has no effect on
+// behaviour; the verification harness uses it to name parser modes.
+func VerifTables() map[string]string {
+	return map[string]string{
+		"valueMap":        valueMap,
+		"tokenMap":        tokenMap,
+		"colonMap":        colonMap,
+		"negMap":          negMap,
+		"zeroMap":         zeroMap,
+		"digitMap":        digitMap,
+		"dotMap":          dotMap,
+		"fracMap":         fracMap,
+		"expSignMap":      expSignMap,
+		"expZeroMap":      expZeroMap,
+		"expMap":          expMap,
+		"stringMap":       stringMap,
+		"escMap":          escMap,
+		"escByteMap":      escByteMap,
+		"uMap":            uMap,
+		"plusMap":         plusMap,
+		"spaceMap":        spaceMap,
+		"commentStartMap": commentStartMap,
+		"commentMap":      commentMap,
+		"ccommentMap":     ccommentMap,
+		"ccommentEndMap":  ccommentEndMap,
+	}
+}
+
+// VerifResetCaches empties the struct encoding plan caches so a verification
+// history can restart from the initial process state.
+func VerifResetCaches() {
+	structMut.Lock()
+	structMap = map[uintptr]*sinfo{}
+	structEmptyMap = map[uintptr]*sinfo{}
+	structMut.Unlock()
+}
